@@ -109,10 +109,10 @@ impl SDJWTCommon {
         match the_object {
             Value::Object(obj) => {
                 for (key, value) in obj.iter() {
-                    if key == SD_DIGESTS_KEY {
+                    if key == SD_DIGESTS_KEY || key == SD_LIST_PREFIX {
                         return Err(Error::DataFieldMismatch(format!(
                             "Claim object cannot have `{}` field",
-                            SD_DIGESTS_KEY
+                            key
                         )));
                     } else {
                         Self::check_for_sd_claim(value)?;
